@@ -831,9 +831,23 @@ func HResetClose(fd int) {
 //
 //go:norace
 func HClosedPort() int {
-	fd, port := HListenTCP(1)
-	HClose(fd)
-	return port
+	// Bound but never listening: a connect is refused (RST), and - unlike a port that was merely
+	// listened on and closed - no other worker process running in parallel can be handed the same
+	// port by the kernel while this execution still dials it (that produced a rare cross-process
+	// nondeterminism). The socket stays open until the ledger's teardown.
+	pt("H:closed-port")
+	fd, err := syscall.Socket(syscall.AF_INET, syscall.SOCK_STREAM|syscall.SOCK_NONBLOCK|syscall.SOCK_CLOEXEC, 0)
+	if err != nil {
+		panic(err)
+	}
+	if err := syscall.Bind(fd, &syscall.SockaddrInet4{Addr: [4]byte{127, 0, 0, 1}}); err != nil {
+		panic(err)
+	}
+	sa, _ := syscall.Getsockname(fd)
+	if led != nil {
+		led.created(fd, "closed-port", "harness")
+	}
+	return sa.(*syscall.SockaddrInet4).Port
 }
 
 // Register makes a descriptor that was created outside the shim (package net / os.File) known to the
